@@ -370,6 +370,8 @@ def _root_child_of(tree, name):
 
 
 ENCODED = [
+    ("src/cogent3/phylo/tree_distance.py", ["unrooted_robinson_foulds", "rooted_robinson_foulds", "lin_rajan_moret", "matching_cluster_distance", "_compute_splits", "_convert_tree_to_vectors", "_matched_distance"]),
+    ("src/cogent3/core/tree.py", ["TreeNode.tree_distance", "TreeNode.lin_rajan_moret", "TreeNode.subsets"]),
     (
         "src/cogent3/core/tree.py",
         ["TreeNode.unrooted_deepcopy", "TreeNode.unrooted", "TreeNode.rooted_at", "TreeNode.rooted_with_tip", "TreeNode._get_sub_tree",
@@ -389,7 +391,7 @@ ASSUMPTIONS = [
     "tree.zeros rebound to an object-dtype allocator inside the worker so symbolic lengths survive numpy",
     "trees are built by make_tree from a newick string (parser trusted for these fixed strings); tip and node names are fixed letters",
 ]
-OUTSIDE = ["newick / JSON text round trip of arbitrary names and float formatting", "phylo.tree_distance metrics", "trees with > 6 tips", "None / zero branch lengths"]
+OUTSIDE = ["newick / JSON float formatting; names longer than 3 characters", "the VALUE of the matching distances (Lin-Rajan-Moret, matching cluster) beyond zero-iff-equal and symmetry; multifurcating trees in the distance metrics", "trees with > 6 tips", "None / zero branch lengths"]
 TRUSTED = ["the parent-pointer path-length walker and split-set extractor in props/c09.py"]
 
 # ---------------------------------------------------------------- names through the text routes
@@ -475,6 +477,8 @@ def obligations(tier):
             obs.append(Ob(f"names/{route}/{which}/len3/blank", __name__, "mk_names", {"route": route, "which": which, "maxlen": 3, "alpha": "blank"}, timeout=900, group="names"))
             if T:
                 obs.append(Ob(f"names_excl_known/{route}/{which}/len3/punct", __name__, "mk_names", {"route": route, "which": which, "maxlen": 3, "alpha": "punct", "exclude_known": True}, timeout=3600, group="names"))
+    for rooted, n in ((True, 4), (False, 5)) + (((True, 5), (False, 6)) if T else ()):
+        obs.append(Ob(f"tree_distance/{'rooted' if rooted else 'unrooted'}/tips{n}", "props.c09_dist", "mk_distance", {"rooted": rooted, "ntips": n}, timeout=3600, group="distance", grade="realised-input"))
     for s in EXTRA:
         for op in ("prune", "sub", "rooted_with_tip", "distances", "unrooted_deepcopy"):
             obs.append(Ob(f"{op}/{s['id']}", __name__, "mk", {"shape_id": s["id"], "op": op}, timeout=600, group=op))
@@ -482,6 +486,8 @@ def obligations(tier):
 
 
 def classify(name, args, cex, rep):
+    if name.startswith("tree_distance"):
+        return None
     if name.startswith("names"):
         nm = cex.get("name", "")
         if nm[:1] == "'":
